@@ -19,6 +19,19 @@ from .core import Repo, REPO_ROOT
 from .report import Ctx, finish
 
 
+def anchor_files(prop: str):
+    here = os.path.dirname(os.path.dirname(os.path.abspath(__file__)))
+    try:
+        with open(os.path.join(here, "properties.jsonl")) as fh:
+            for line in fh:
+                d = json.loads(line)
+                if d.get("id") == prop:
+                    return [f for f in d.get("anchors", {}).get("files", []) if f.endswith(".py")]
+    except OSError:
+        pass
+    return []
+
+
 def main(argv=None) -> int:
     ap = argparse.ArgumentParser()
     ap.add_argument("property")
@@ -41,8 +54,11 @@ def main(argv=None) -> int:
             mod.run_thorough(ctx)
         if args.tier == "thorough":
             from . import selfcheck
+            from .generic import run_generic
 
             selfcheck.run_fixtures(ctx, mod)
+            # generic hazard lints over every file the property is anchored in (properties.jsonl)
+            run_generic(ctx, anchor_files(prop))
     except Exception as exc:  # never let a traceback masquerade as exit 1
         ctx.errors.append(f"rule=<driver> anchor=<internal> why={type(exc).__name__}: {exc}\n{traceback.format_exc(limit=8)}")
         explanation = getattr(mod, "EXPLANATION", "driver failed")
